@@ -371,7 +371,13 @@ def run(ctx):
             if di is not None:
                 isl = Slice(cf).run(di)
                 names = call_names(isl)
-                flow = "trailing_zeros" in names and "take_dirty_buckets" in names and "drain_overflow_buckets" in names
+                drain_folded = any(k.endswith("drain_overflow_buckets") for k in prog.folded)
+                flow = "trailing_zeros" in names and "take_dirty_buckets" in names and ("drain_overflow_buckets" in names or drain_folded)
+                if drain_folded and not flow and "next" in names and "trailing_zeros" not in names:
+                    # this is the K..len copy loop of the inlined drain helper, judged under R3.overflow-drain
+                    det.append("store of the inlined overflow drain (index from the K..len range)")
+                    ok = ok and okw
+                    continue
                 okw = okw and flow
                 det.append(f"index = trailing_zeros of the bitmap returned by take_dirty_buckets via drain_overflow_buckets: {flow}")
             ok = ok and okw
@@ -393,6 +399,31 @@ def run(ctx):
                f"resets per path={pc}, reset value 0: {zero}, returns the bitmap read: {ret_ok}, read precedes reset: {order}")
     if dr is None:
         ctx.missing("R3.overflow-drain", "ObservationBagSync::drain_overflow_buckets")
+    elif cf is not None and dr.key == cf.key:
+        # the drain helper was inlined into copy_from by a refactoring: its parameter/return shape no longer exists to be matched.
+        # What can still be said on the merged body: some in-loop store copies data.bucket_counts[i] to self.bucket_counts[i] over a
+        # range ending at a bucket_counts length (checked below); the mask/return-shape sub-rules are not re-derived.
+        ws2 = [w for w in writes(cf) if w["root"] == 1 and has_field(w["fields"], "bucket_counts")]
+        rng_ok = False
+        for blk in cf.blocks:
+            for st in blk.stmts:
+                if st["k"] == "assign" and st["rv"]["k"] == "aggr" and str(st["rv"].get("adt", "")).endswith("ops::Range"):
+                    c0 = resolve_const(cf, st["rv"]["ops"][0])
+                    esl = Slice(cf).run(st["rv"]["ops"][1])
+                    if c0 and "val" in c0 and "len" in call_names(esl) and any(f.endswith("::bucket_counts") for f in esl["fields"]):
+                        rng_ok = True
+                        K["drain"] = c0["val"]
+        for blk in cf.blocks:
+            for st in blk.stmts:
+                if st["k"] == "assign" and st["rv"]["k"] == "binop" and st["rv"]["op"] == "Shl":
+                    a_, b_ = resolve_const(cf, st["rv"]["a"]), resolve_const(cf, st["rv"]["b"])
+                    if a_ and a_.get("val") == 1 and b_ and "val" in b_:
+                        K["mask"] = b_["val"]
+        if len(ws2) >= 2 and rng_ok:
+            ctx.inconclusive("R3.overflow-drain", "drain.copies", cf.loc(), "drain_overflow_buckets was inlined into copy_from; a K..len copy loop is present, the guard shape is not re-derived")
+            ctx.inconclusive("R3.overflow-drain", "drain.returns", cf.loc(), "drain_overflow_buckets was inlined into copy_from; there is no helper return value to classify")
+        else:
+            ctx.ob("R3.overflow-drain", "drain.copies", False, cf.loc(), f"drain helper inlined into copy_from but no K..len copy loop found (bucket stores {len(ws2)}, range {rng_ok})")
     else:
         ctx.fn(dr)
         drain_rules(ctx, dr, K)
@@ -743,6 +774,16 @@ def merge_rules(ctx, b, selfkind):
             if io is not None:
                 isl = Slice(b).run(io)
                 idx_ok = "enumerate" in call_names(isl) and 2 in isl["args"]
+            if not (src and idx_ok) and sl is not None and "zip" in names:
+                # `for (target, &other) in self.bucket_counts.iter_mut().zip(other.bucket_counts.iter())`: positions agree by
+                # construction when both sides are the full, forward, unfiltered sequences
+                tsl = Slice(b).run({"k": "copy", "place": {"l": s["place"]["l"], "p": []}})
+                tn = set(call_names(tsl)) | set(names)
+                cut = tn & {"rev", "skip", "take", "step_by", "filter", "skip_while", "take_while", "chain", "filter_map", "map_while", "nth"}
+                both_full = "iter_mut" in tn and "zip" in tn and {1, 2} <= (tsl["args"] | sl["args"]) and \
+                    sum(1 for f in (tsl["fields"] | sl["fields"]) if f.endswith("::bucket_counts")) >= 1
+                if both_full and not cut:
+                    src = idx_ok = True
             ok = ok and add and src and idx_ok
             det.append(f"adds the other bag's element: {add and src}; target index is the enumeration index over other.bucket_counts: {idx_ok}")
         ctx.ob("R4.merge-additive", f"{tag}.bucket_counts", ok, where, "; ".join(det))
